@@ -280,9 +280,11 @@ LATER = {
            "looked up only when it also starts with '/' (root and selector are joined as text).",
     "C02": " Also: the connection handler shows the protocols the whole first line (no length bound).",
     "C08": " Also: sidecar lines end at the line feed only (sidecar reader evaluated).",
-    "C13": " Also: data is never part of a format string that builds markup.",
+    "C13": " Also: data is never part of a format string that builds markup, nor the replacement template of a regular-expression "
+           "substitution; no regex flag sits in a count position.",
     "C11": " Also: the cache file is written once per generated listing, after the last change. Also: nothing on the failure path of a cache load formats with request text as the format string.",
-    "C05": " Also: WAP recognition followed by handle() takes the prefix off once (evaluated in that order).",
+    "C05": " Also: WAP recognition followed by handle() takes the prefix off once (evaluated in that order); the protocols leave the file "
+           "system to the handlers (no stat/exists/open, no file-system view of their own).",
     "C14": " Also: what a worker thread runs on the shared server object only reads it; class-level containers are not changed in place "
            "through instances; a dbm/shelve cache is written under a guard that covers a racing second writer.",
     "C03": " Also: the not-found exception's text is total (evaluated on selectors with % and braces); request text is never a format "
@@ -292,7 +294,8 @@ LATER = {
            "the TLS layer); the MIME tables are asked about selectors, not bare names; a file is a mailbox only if its first line is an "
            "mbox envelope line (evaluated).",
     "C06": " Also: no program run for a request is read in text mode; a request body is read to its announced length; the search string reaches "
-           "the handler as typed (Gemini and HTTP handle() evaluated).",
+           "the handler as typed (Gemini and HTTP handle() evaluated); the HTML and WML row renderers return a row for every entry, "
+           "typeless ones included (evaluated).",
     "C07": " Also: the ignore pattern is applied to the whole name from its start; link files are decoded like directory names; "
            "ordinary one-letter and dotted names pass the selector filter (evaluated); no set is iterated on the listing path; a dot-file the ignore pattern matches is not parsed as a link file.",
     "C09": " Also: which requests are rendered from a gophermap (directory holding one, regular *.gophermap file) is evaluated on "
@@ -300,14 +303,14 @@ LATER = {
     "C10": " Also: nothing touches the cache file's time stamp except a save.",
     "C12": " Also: the log routine used by the not-found exception is total on texts with format characters, and so is the exception's own text (evaluated); names bound in a try body are bound on every way out of its handlers.",
     "C15": " Also: entries are populated through the handler's own file-system view; the block of an empty or blank side file "
-           "is rendered (getblock evaluated with the real accessors).",
+           "is rendered (getblock evaluated with the real accessors); +VIEWS carries the size whenever it is known, zero included (evaluated).",
     "C16": " Also: the member path is what follows the archive's selector, once (evaluated). Also: entries inside an archive are populated through the archive view; members are opened by the name the index "
            "gave, not by the request path; the archive view keeps no module-level tables between requests.",
     "C17": " Also: tal:define statements are evaluated in order, each local unless it says global (compiler evaluated); a path step the value does not have is a missing path (evaluated); slot fillers are cleared after the expansion they were given to.",
     "C18": " Also: attribute values are taken as html.parser hands them over on every interpreter from 3.7 on (version test and "
            "start-tag callback evaluated for nine interpreter versions); the scope stack is popped only after the element's locals.",
     "C19": " Also: no privileged call sits in a with block whose manager can swallow an exception (suppress, ExitStack callbacks "
-           "that can return true, repo managers); a failed bind propagates and nothing binds later.",
+           "that can return true, repo managers); a failed bind propagates and nothing binds later; the switches that decide a privilege step are parsed by getboolean().",
     "C20": " Also: the except clauses of the connection handler only report (nothing there calls back into protocol or handlers). Also: no context manager of the server swallows what is raised in its block; the connection handler's output file is "
            "unbuffered or flushed inside its try, so a write error cannot surface in finish(); SIGPIPE stays ignored.",
 }
